@@ -45,6 +45,9 @@ type c07FlowInput struct {
 	N            int  `json:"n,omitempty"`
 	Pos          int  `json:"pos,omitempty"`
 	FirstRefused bool `json:"firstRefused,omitempty"`
+	// the factory first builds and closes another instance with this configuration (libocr calls
+	// NewReportingPlugin on one factory for every config): nothing of it may carry over
+	Decoy *c06Cfg `json:"decoy,omitempty"`
 }
 
 type c07FlowImpl struct {
@@ -105,7 +108,11 @@ func c07FlowRun(t *testing.T, in c07FlowInput) c07FlowImpl {
 	w, w0 := c07NewFlowWork(r, in.Type), c07NewFlowWork(r, in.Type)
 	ctx := context.Background()
 	conf := fmt.Sprintf(`{"performLockoutWindow":%d,"minConfirmations":%d}`, in.Cfg.WindowMs, in.Cfg.MinConf)
-	node := NewNode(t, NodeOpts{N: 4, F: 1, OffchainConfig: []byte(conf)})
+	opts := NodeOpts{N: 4, F: 1, OffchainConfig: []byte(conf)}
+	if in.Decoy != nil {
+		opts.Decoy = &NodeOpts{N: 4, F: 1, OffchainConfig: []byte(fmt.Sprintf(`{"performLockoutWindow":%d,"minConfirmations":%d}`, in.Decoy.WindowMs, in.Decoy.MinConf))}
+	}
+	node := NewNode(t, opts)
 	defer func() {
 		node.Close()
 		time.Sleep(11 * time.Second)
@@ -346,6 +353,9 @@ var c07Shapes = []struct {
 	firstRefused bool
 }{{2, 1, false}, {3, 1, true}, {3, 2, false}, {4, 3, false}, {4, 3, true}, {4, 1, false}, {2, 0, false}, {3, 1, false}}
 
+// configurations of the decoy instance: shorter / longer lockout window, other minimum confirmations
+var c07Decoys = []*c06Cfg{{MinConf: 5, WindowMs: 1000}, {MinConf: 0, WindowMs: 1200000}, {MinConf: 4, WindowMs: 3000}}
+
 // c07FlowBatched: the same grid with w accepted as part of a batched report — every shape for
 // the phases in which w must be withheld, a rotating shape for the others.
 func c07FlowBatched() []c07FlowInput {
@@ -355,11 +365,15 @@ func c07FlowBatched() []c07FlowInput {
 			for _, sh := range c07Shapes {
 				b := c
 				b.N, b.Pos, b.FirstRefused = sh.n, sh.pos, sh.firstRefused
+				if (i+sh.n+sh.pos)%2 == 0 {
+					b.Decoy = c07Decoys[(i+sh.pos)%len(c07Decoys)]
+				}
 				out = append(out, b)
 			}
 		} else {
 			sh := c07Shapes[i%len(c07Shapes)]
 			c.N, c.Pos, c.FirstRefused = sh.n, sh.pos, sh.firstRefused
+			c.Decoy = c07Decoys[i%len(c07Decoys)]
 			out = append(out, c)
 		}
 	}
@@ -391,6 +405,9 @@ func c07FlowGen(r *Rng) c07FlowInput {
 	in.N = r.Range(1, 4)
 	in.Pos = r.Intn(in.N)
 	in.FirstRefused = in.N > 1 && in.Pos > 0 && r.Chance(40)
+	if r.Chance(50) {
+		in.Decoy = c07Decoys[r.Intn(len(c07Decoys))]
+	}
 	return in
 }
 
@@ -398,6 +415,9 @@ func c07FlowAll(t *testing.T, em *Emitter) {
 	run := func(in c07FlowInput) {
 		em.Hit("flow:" + in.Path)
 		em.Hit(fmt.Sprintf("flow:report-size=%d", max(in.N, 1)))
+		if in.Decoy != nil {
+			em.Hit("flow:decoy-first")
+		}
 		synctest.Test(t, func(t *testing.T) { em.Emit("flow", in, c07FlowRun(t, in)) })
 	}
 	for _, in := range c07FlowCases() {
